@@ -40,8 +40,9 @@ type world struct {
 	faults []*faultState
 	ord    map[string]int // per-key call ordinals
 	holds  map[string]chan struct{}
-	ended  bool // run is over: every hold is open
-	endC   chan struct{} // closed at the very end of the run
+	latSeq int
+	ended  bool            // run is over: every hold is open
+	endC   chan struct{}   // closed at the very end of the run
 	ghosts map[int][]AddrW // interface indexes which now belong to some other interface
 }
 
@@ -173,7 +174,14 @@ func (w *world) park(f *Fault) {
 	}
 	if f.Lat > 0 {
 		w.fault("latency")
-		time.Sleep(time.Duration(f.Lat))
+		// Two calls delayed by the same amount from the same instant would wake
+		// in an order the timer heap, not the plan, decides: every delay gets
+		// its own few extra nanoseconds.
+		w.mu.Lock()
+		w.latSeq++
+		extra := time.Duration(w.latSeq%64)*17 + 1
+		w.mu.Unlock()
+		time.Sleep(time.Duration(f.Lat) + extra)
 	}
 	if f.Hold != "" {
 		w.fault("hold")
